@@ -4,6 +4,7 @@ pub mod checks2;
 pub mod checks3;
 pub mod core;
 pub mod gen;
+pub mod internal;
 pub mod known;
 pub mod minimise;
 pub mod orchestrate;
